@@ -121,6 +121,18 @@ class FaultStream(Stream):
                 yield dict(sc, fault=['fits_raise', j, rng.choice(EXCS)])
             if rng.random() < 0.3:
                 yield dict(sc, fault=['iter_raise', rng.randint(0, npol), rng.choice(['Base1', 'GeneratorExit'])])
+            # a context rule of the j-th policy raises, under a key the inquiry context does hold (every j; the
+            # classes a handler around the context lookup could mistake for "key absent" first)
+            ctx = specs.py(sc['inquiry']['context'])
+            if ctx is None or isinstance(ctx, dict):
+                inq = dict(sc['inquiry'], context=specs.jv(dict(ctx or {}, fk=1)))
+                for j in range(npol):
+                    for exc in ('KeyError', rng.choice(['LookupError', 'IndexError', 'AttributeError', 'TypeError',
+                                                        'ValueError', 'Custom1'])):
+                        pj = dict(sc['policies'][j])
+                        pj['context'] = list(pj['context']) + [['fk', ['Broken', exc]]]
+                        yield dict(sc, policies=sc['policies'][:j] + [pj] + sc['policies'][j + 1:], inquiry=inq,
+                                   fault=None)
             # the same fault position with every class that has a protocol meaning
             for j in range(ncalls):
                 yield dict(sc, fault=['fits_raise', j, 'StopIteration'])
